@@ -253,7 +253,7 @@ def run_shard(shard):
             for cont, msg in res[:2]:
                 acc.violation("%s/%s after %s %s" % (ln, nn, "+".join(o[0] for o in hist) or "construction", name),
                               {"cfg": cfg, "ln": ln, "stage": {"history": hist}, "call": name, "cdepth": shard["cdepth"]}, msg)
-    S.explore(cfg, "int", shard["bfs"], acc, visit)
+    S.explore(cfg, "int", shard["bfs"], acc, visit, query=True)       # positions after predictions too
     return acc.result()
 
 
